@@ -28,6 +28,7 @@ type FrameSpec struct {
 }
 
 type ReadCase struct {
+	Init   int // ≠0: the channel is created with this msize and then SetMSize(MSize) is called (what version negotiation does)
 	MSize  int
 	Frames []FrameSpec
 	Plan   []int // read chunk sizes (cycled); empty = whole-buffer reads
@@ -174,6 +175,12 @@ func genFrame(t *rapid.T, msize int, last bool) FrameSpec {
 func GenReadCase(t *rapid.T) ReadCase {
 	var c ReadCase
 	c.MSize = rapid.OneOf(rapid.IntRange(24, 64), rapid.IntRange(24, 400), rapid.SampledFrom([]int{24, 4096, 8192})).Draw(t, "msize")
+	switch rapid.IntRange(0, 3).Draw(t, "initclass") {
+	case 0:
+		c.Init = 65536 // as CSession / ServeConn do: created with the default, shrunk by negotiation
+	case 1:
+		c.Init = rapid.IntRange(24, 9000).Draw(t, "init") // arbitrary earlier msize: shrink or grow
+	}
 	maxFrames := 8
 	if harn.Thorough() {
 		maxFrames = 20
@@ -219,6 +226,10 @@ func libPanic(stack []byte) bool {
 }
 
 func readStream(msize int, stream []byte, plan []int, nreads int) (outs []outcome, perr error) {
+	return readStreamInit(0, msize, stream, plan, nreads)
+}
+
+func readStreamInit(init, msize int, stream []byte, plan []int, nreads int) (outs []outcome, perr error) {
 	a, b := memconn.NewPair(memconn.Options{})
 	defer a.Close()
 	defer b.Close()
@@ -235,7 +246,13 @@ func readStream(msize int, stream []byte, plan []int, nreads int) (outs []outcom
 		}
 		a.SetReadPlan(full)
 	}
-	ch := p9p.NewChannel(a, msize)
+	var ch p9p.Channel
+	if init != 0 {
+		ch = p9p.NewChannel(a, init)
+		ch.SetMSize(msize)
+	} else {
+		ch = p9p.NewChannel(a, msize)
+	}
 	ctx := context.Background()
 	for i := 0; i < nreads; i++ {
 		var o outcome
@@ -330,9 +347,12 @@ func RunRead(c ReadCase) harn.Result {
 			return harn.Fail("internal: final element not last")
 		}
 	}
-	outs, perr := readStream(c.MSize, stream, c.Plan, len(raws)+1)
+	outs, perr := readStreamInit(c.Init, c.MSize, stream, c.Plan, len(raws)+1)
 	if perr != nil {
 		return harn.Result{Err: perr}
+	}
+	if c.Init != 0 {
+		res.Classes = append(res.Classes, "after_setmsize")
 	}
 	for i, e := range exps {
 		if !matches(outs[i], e) {
